@@ -4,7 +4,7 @@ import itertools
 from hypothesis import strategies as st
 
 from vlib import interleaved_model as im
-from vlib.core import Case, Facet, Refused, Violation
+from vlib.core import Case, Facet, Refused, Violation, guarded
 
 # thorough-tier budgets of every facet are multiplied by this factor (sized for ~5-8 min on 16 cores)
 THOROUGH_SCALE = 5
@@ -121,6 +121,65 @@ def check_far(spec):
     return Case(len(runs) >= 2, sorted(runs), len(runs))
 
 
+def check_accepted(spec):
+    """whatever geometry the constructor accepts - also one the reference model has no opinion on, such as a drop_last_batch_size above the
+    sampler length - a run resumed with start_epoch=k must equal the implementation's own uninterrupted run from the item on at which
+    epoch k was announced (model-free: both sides are the code under test, the relation is the property)"""
+    spec = dict(spec)
+    try:
+        full, main = im.build_impl(spec)
+    except (AssertionError, NotImplementedError):
+        raise Refused("constructor refuses the geometry")
+    BOUND = 3000
+    stream, starts, it = [], {}, iter(full)
+    while True:
+        seen = sum(1 for kk, _ in main.log if kk == "set_epoch")
+        try:
+            f, g = next(it)
+        except StopIteration:
+            break
+        anns = [e for kk, e in main.log if kk == "set_epoch"]
+        if len(anns) > seen:
+            starts.setdefault(anns[-1], len(stream))
+        stream.append((bool(f),) + im.resolve(full, g)[0::2])
+        if len(stream) > BOUND:
+            raise Violation("accepted-geometry:uninterrupted-run-does-not-end", f"more than {BOUND} items for {spec['budget']} epochs over {spec['N']} samples")
+    anns = [e for kk, e in main.log if kk == "set_epoch"]
+    ks = [k for k in sorted(starts) if k >= 1]
+    if not ks:
+        raise Refused("no epoch boundary before the budget")
+    k = ks[min(len(ks) - 1, int(spec["kfrac"] * len(ks)))]
+    try:
+        resumed, main2 = im.build_impl(spec, start={"start_epoch": k})
+    except (AssertionError, NotImplementedError):
+        raise Refused("checkpoint refused")
+    got = [(bool(f),) + im.resolve(resumed, g)[0::2] for f, g in itertools.islice(iter(resumed), BOUND + 1)]
+    exp = stream[starts[k]:]
+    oversized = bool(spec.get("dlbs") and spec["dlbs"] > spec["N"])
+    tag = "oversized-dlbs" if oversized else "ordinary"
+    if got != exp:
+        raise Violation(f"accepted-geometry:resume-differs-from-own-uninterrupted-run:{tag}",
+                        f"start_epoch={k}: resumed run has {len(got)} items, the uninterrupted run {len(exp)} from that epoch on; first difference at "
+                        f"{next((j for j in range(min(len(got), len(exp))) if got[j] != exp[j]), 'length')}")
+    ann2 = [e for kk, e in main2.log if kk == "set_epoch"]
+    if ann2 != [e for e in anns if e >= k]:
+        raise Violation(f"accepted-geometry:announced-epochs-differ:{tag}", f"resumed {ann2}, uninterrupted {[e for e in anns if e >= k]}")
+    return Case(True, [tag], 2)
+
+
+@st.composite
+def accepted_spec(draw):
+    s = draw(im.full_spec(max_configs=2, allow_zero_budget=False, small=True))
+    for c in s["configs"]:
+        if c.get("form") == "growing":
+            del c["form"]
+    s.update(main_kind="epoch", budget_kind="epochs", budget=draw(st.integers(2, 4)), kfrac=draw(st.sampled_from([0.0, 0.5, 0.99])))
+    if s["drop_last"] and draw(st.booleans()):
+        # also sizes the constructor may or may not accept: multiples of B beyond the sampler length
+        s["dlbs"] = s["B"] * draw(st.integers(1, max(1, (3 * s["N"]) // s["B"])))
+    return s
+
+
 @st.composite
 def far_spec(draw):
     s = draw(im.full_spec(max_configs=2, allow_zero_budget=False, small=True))
@@ -170,6 +229,9 @@ FACETS = [
     Facet("resume", check, strategy=lambda tier: resume_spec(),
           budget={"quick": 5000, "thorough": 80000}, shards={"quick": 8, "thorough": 16},
           min_nontrivial={"quick": 200, "thorough": 3000}),
+    Facet("accepted-geometries", guarded("accepted-geometries", check_accepted), strategy=lambda tier: accepted_spec(),
+          budget={"quick": 1500, "thorough": 20000}, shards={"quick": 4, "thorough": 8},
+          min_nontrivial={"quick": 200, "thorough": 2000}),
     Facet("far-checkpoints", check_far, strategy=lambda tier: far_spec(),
           budget={"quick": 600, "thorough": 8000}, shards={"quick": 2, "thorough": 8},
           min_nontrivial={"quick": 100, "thorough": 1000}),
